@@ -110,7 +110,9 @@ def monitorHist (sc : HScn) (entries : List String) : List (String × String) :=
           if sc.wMaxAtt w == 0 || delivered < sc.wMaxAtt w then m := m.add "C14" "refused-before-max-attempts"
         | none => pure ()
       if a3 == "panic" then
-        m := m.add "C16" (if m.shutdownAt.isSome then "enqueue-after-shutdown-panics" else "enqueue-panics")
+        -- (v1 closes the buffer channel before it raises the shutdown event: a caller blocked on the full buffer panics
+        -- at the close, possibly before the event is logged - the same thing as a panic after the event)
+        m := m.add "C16" (if m.shutdownAt.isSome || m.stopAsked then "enqueue-after-shutdown-panics" else "enqueue-panics")
         m := m.add "C15" "enqueue-panics-at-shutdown"
       if m.shutdownAt.isSome && a3 == "ok" then
         -- accepted although the Batcher has shut down (only a call that began before the shutdown may still succeed)
@@ -185,6 +187,8 @@ def monitorHist (sc : HScn) (entries : List String) : List (String × String) :=
         if m.shutdowns > 0 then m := m.add "C16" "second-shutdown-event"
         m := { m with shutdowns := m.shutdowns + 1, shutdownAt := some t }
       else if a2 == "pause" then
+        -- (a new pause taken at the very instant of a resume: the held Flush() stays held until the loop is free)
+        if m.expectCycleAt == some t then m := { m with expectCycleAt := none, flushHeld := true }
         if n3 != sc.pauseMs then m := m.add "C13" "pause-event-value"
         m := { m with pauseAt := some t, pauseEvents := m.pauseEvents + 1, paused := true, expectPause := false }
         if m.pauseEvents > m.pauseCalls then m := m.add "C13" "more-pauses-than-effective-calls"
